@@ -6,13 +6,15 @@
    condition values, all raising callbacks) and every history / any number of models.
    Statements only; proofs in Proofs/MultiP.v. *)
 From Coq Require Import List Arith Bool.
-From M Require Import Base Flat Multi.
+From M Require Import Base Flat Multi Queue.
 From P Require Import MultiP.
 Import ListNotations.
 
 (* The invariant of all histories: registered models are distinct, own every helper the machine
    declares (trigger, may_trigger, <event>, may_<event>, is_<state>, plus to / get_graph in the
-   hierarchical / graph classes), have a state, and are keys of the class's side tables. *)
+   hierarchical / graph classes), have a state, and are keys of the class's side tables
+   (get_graph is not claimed: a graph class that refuses a model in the middle of a list leaves the rest of the
+   list registered without graph). *)
 Theorem C10_invariant : forall k ev mc ini hs, Inv k (run k ev (init_world mc ini) hs).
 Proof. exact Inv_reachable. Qed.
 
@@ -77,6 +79,27 @@ Theorem C10_add_twice : forall k ev mc ini hs m init bs r w',
   bs = [] /\ r = inr None /\ world_eq w w'.
 Proof. exact add_twice_reachable. Qed.
 
+(* ... also for ONE add_model call with a list (or the constructor's model list) that names only registered
+   models, each of them any number of times: no effect, in every class. *)
+Theorem C10_add_twice_list : forall k ev mc ini hs ms init bs r w',
+  let w := run k ev (init_world mc ini) hs in
+  (forall x, In x ms -> In x (w_models w)) ->
+  step k ev w (OAddModels ms init) = (bs, r, w') ->
+  bs = [] /\ r = inr None /\ world_eq w w'.
+Proof. exact add_twice_list_reachable. Qed.
+
+(* The same object listed several times within one call / one constructor list is registered ONCE (C10_invariant:
+   the registered models are distinct after every history, list adds with repetitions included); an instance: *)
+Example C10_in_call_repetition :
+  let k := mkClass true false true false QNo in
+  let ev := fun (_ _ : nat) => mkReply true None [] in
+  let t := mkTrans 0 (Some 0) [] [] [] [] in
+  let w := run k ev (init_world mc1 0) [OAddModels [0; 1; 0] None; OAddTransition 5 t; OAddModels [2; 2; 0] None] in
+  w_models w = [0; 1; 2] /\ w_ctx w = [0; 1; 2] /\
+  match step k ev w (ODispatch 5 7) with (bs, r, _) => map b_model bs = [0; 1; 2] /\ r = inr (Some true) end /\
+  w_models (step_w k ev w (ORemoveModel 0)) = [1; 2].
+Proof. exact in_call_repetition_witness. Qed.
+
 (* What still raises in the graph classes: an object that is NOT registered but already owns get_graph (a model
    removed earlier keeps the attribute, or it is shared with another graph machine).  The base add_model
    registers it and sets its state, then GraphMachine.add_model raises AttributeError; no graph is built. *)
@@ -117,6 +140,17 @@ Theorem C10_removed : forall k ev m hs w,
   ~ In m (w_models w) -> Forall (fun o => ~ mentions m o) hs ->
   untouched m w (run k ev w hs).
 Proof. exact (fun k ev m hs w => run_untouched k ev m hs w). Qed.
+
+(* REMOVED (3): remove_model([m1; m2; ...]) called from a callback while events are pending (queued machine;
+   Queue.v performs the removals one after the other): the event in progress stays at the head, and exactly the
+   pending events of ALL listed models disappear — for every "process one event" function. *)
+Theorem C10_removed_list_pending : forall (payload : qentry -> nat -> nat) cur ms k (s : qstate) h tl,
+  qs_queue s = h :: tl -> NoDup ms ->
+  (forall m, In m ms -> existsb (Nat.eqb m) (qs_models s) = true) ->
+  let s' := apply_actions payload cur k (map ARemoveModel ms) s in
+  qs_queue s' = h :: filter (fun x => negb (mem_nat (q_model x) ms)) tl /\
+  (forall m, In m ms -> existsb (Nat.eqb m) (qs_models s') = false).
+Proof. exact remove_list_exact. Qed.
 
 (* The graph classes have no remove_model: model_graphs keeps the (integer) key of a removed model.
    No reference to the model is kept (the GC check of the harness passes); recorded as an observation. *)
@@ -177,6 +211,9 @@ Print Assumptions C10_dispatch.
 Print Assumptions C10_late_model.
 Print Assumptions C10_late_model_names.
 Print Assumptions C10_add_twice.
+Print Assumptions C10_add_twice_list.
+Print Assumptions C10_in_call_repetition.
+Print Assumptions C10_removed_list_pending.
 Print Assumptions C10_graph_readd_raises.
 Print Assumptions C10_graph_readd_example.
 Print Assumptions C10_removed_tables.
